@@ -41,6 +41,36 @@ LEVEL_NOTE = ('Trusted: Lean kernel + axioms propext/Classical.choice/Quot.sound
               'statement of the theorems; the correspondence harness (simulated k8s/AWS, canonicalisation, generator reach); '
               'the go/ast extractor. Modelled, not verified: informers, leader election, metrics, logging, AWS session/SDK shapes.')
 
+def c16_safe_monitor(case_line, result):
+    """C16 monitor, independent of the Lean build: a configuration the real validator accepted must be safe."""
+    if '"op":"validate"' not in case_line:
+        return []
+    c = json.loads(case_line)
+    if c['obs'].get('problems') != 0:
+        return []
+    g = c['cfg']
+    bad = []
+    if not (g['name'] and g['labelKey'] and g['labelValue'] and g['cloudGroup']):
+        bad.append('empty-name')
+    if not (0 < g['lower'] < g['upper'] < g['scaleUp']):
+        bad.append('thresholds')
+    if not (0 <= g['slow'] <= g['fast']):
+        bad.append('rates')
+    if not (0 < g['softNs'] < g['hardNs']):
+        bad.append('grace')
+    if not (0 < g['coolNs']):
+        bad.append('cooldown')
+    if not ((0 <= g['minNodes'] < g['maxNodes']) or (g['minNodes'] == 0 and g['maxNodes'] == 0)):
+        bad.append('bounds')
+    if g['taintEffect'] not in ('', 'NoSchedule', 'NoExecute', 'PreferNoSchedule'):
+        bad.append('effect')
+    if g['lifecycle'] not in ('', 'on-demand', 'spot'):
+        bad.append('lifecycle')
+    if not g['maxNodeAgeParses']:
+        bad.append('max-node-age')
+    return ['C16:accepted-unsafe:' + ','.join(bad)] if bad else []
+
+
 PROPS = {
     'C01': dict(level='proof', module='EscProofs.P.C01', streams=hist('C01'),
                 technique='Lean 4 theorem over an executable model (journal soundness by induction over node lists, lifted to histories) + differential correspondence and runtime monitor on the real code',
@@ -107,6 +137,17 @@ PROPS = {
                 level_text='C11_scan / C11_history: with the global flag or the group option set, the group scan journal contains no write, for every state/view/environment and every history. '
                            'Scope: scans (RunOnce); the one-off ASG tag write at provider construction is outside. Isolation of other groups is C12. Tie: hist (dry-focused) on writes of dry groups + monitor.',
                 level_note=LEVEL_NOTE),
+    'C16': dict(level='proof', module='EscProofs.P.C16',
+                streams=dict(quick=[('decode', []), ('validate', ['-n', 4000])], thorough=[('decode', []), ('validate', ['-n', 400000])],
+                             search=[('validate', ['-n', 40000])]),
+                aspects=['problems', 'honoured', 'field', 'panic', 'bad-case'], monitors=['C16'], py_monitor=c16_safe_monitor,
+                theorems=['Esc.P.C16_sound', 'Esc.P.C16_translation_complete', 'Esc.P.C16_keys_distinct', 'Esc.P.C16_keys_partial', 'Esc.P.C16_keys_full_fails'],
+                technique='Lean 4 theorem over definitions REGENERATED from the Go source on every run (go/ast translator of ValidateNodeGroup and of the option struct tags / documented keys) + differential correspondence of the translation with the real validator and decoder + independent monitor',
+                level_text='C16_sound: Gen.validate c -> Safe c, where Gen.validate is the conjunction of the 24 checkThat(...) conditions translated from pkg/controller/node_group.go on this run and Safe is written from the property statement; '
+                           'deleting or weakening a check breaks the proof before any test runs; C16_translation_complete: no construct was left untranslated; C16_keys_*: json keys pairwise distinct, every documented example key except '
+                           'scale_up_cool_down_timeout is an option key (partial: finding T4, C16_keys_full_fails). Tie: the validate stream compares, on a bounded-exhaustive grid plus random, the number of failing checks of the translation with the real '
+                           'ValidateNodeGroup; decode runs every key as YAML and JSON through the real decoder; an independent monitor re-checks Safe on every accepted configuration.',
+                level_note=LEVEL_NOTE + ' YAML parsing itself (yaml.NewYAMLOrJSONDecoder) and time.ParseDuration are trusted library code; durations reach the model as the values the accessors returned.'),
     'C17': dict(level='proof', module='EscProofs.P.C17',
                 streams=dict(quick=[('awsops', ['-n', 3000]), ('fleetops', ['-n', 96])],
                              thorough=[('awsops', ['-n', 200000]), ('fleetops', ['-n', 1600])],
